@@ -1,6 +1,7 @@
 import MxlVerif.Lemmas.C11
 import MxlVerif.Lemmas.C11Witness
 import MxlVerif.Lemmas.C11Keys
+import MxlVerif.Lemmas.C11Struct
 import MxlVerif.Model.Queries
 namespace Mxl.C11
 open Mxl.C07 (resEq)
@@ -61,6 +62,16 @@ theorem C11_generated_definitions_own (c : NContent) (s : SymRepr) (hs : toSymbo
   rw [toSymbolicRepr_nil] at hs
   cases hs
   exact generated_refs_ok c
+
+/-- **Names, kinds, order and wiring survive — every model, no hypothesis** (also when function names collide):
+    the builder chain of the generated program declares the model's variables, parameters, derived quantities and
+    reactions with the same names and kinds in the same order, each function with the same model arguments, each
+    reaction with the same compounds in its stoichiometry (and the same arguments for computed coefficients). -/
+theorem C11_build_structure (c : NContent) (s : SymRepr) (hs : toSymbolicRepr [] c = .ok s) :
+    (genProgram s).build.map Call.head = heads c := by
+  rw [toSymbolicRepr_nil] at hs
+  cases hs
+  exact build_heads c
 
 example : keysInjective wShared = true ∧ argsNoDup wShared = true
     ∧ keysInjective wFresh = true ∧ argsNoDup wFresh = true
